@@ -81,12 +81,16 @@ func main() {
 
 			var wg sync.WaitGroup
 			wg.Add(2)
+			// When one direction finishes (its source was closed by the peer, or its destination
+			// is gone), close its destination so that the close is propagated to the other peer.
 			go func() {
 				defer wg.Done()
+				defer backendConn.Close()
 				io.Copy(backendConn, conn)
 			}()
 			go func() {
 				defer wg.Done()
+				defer conn.Close()
 				io.Copy(conn, backendConn)
 			}()
 			wg.Wait()
